@@ -134,7 +134,7 @@ PROPS = {
         "level": "exploration",
         "quick": cfg(16, 30),
         "thorough": cfg(16, 400),
-        "rule": "1/6 of the cases: a FileTransfer plugin with a random apid/ctid restriction and keepFLDA on/off processes data packages, announcements, end markers and near misses (other last argument, 4 arguments, utf8 tags, non verbose, other level, no extended header) of the configured and of other applications: exactly the data packages of the configured application are dropped when keepFLDA is off, everything else is forwarded unchanged and in order. 1/2 of the cases: a random non-empty subset of {NonVerbose, SomeIp, CAN, Muniic, Rewrite, NonVerbose with the harness' own FIBEX (harness/fibex/nv_rich.xml: one frame per signal type S_UINT8..S_RAW, a 17-value frame, text-only and empty frames, ECU EcuR)} in random order, created through factory::get_plugin from the repository's FIBEX/JSON/cfg files, processes 20-220 messages of mixed traffic (non-verbose ids of the FIBEX files and near misses with/without extended header and payloads of exactly / one less / one more than the frame's byte length, SOME/IP-like and CAN-like network traces incl. truncated frames, 13-argument Muniic messages, complete well-formed segmented SOME/IP transfers (NWST, all NWCH in order, NWEN), SYS/JOUR texts matching and not matching the rewrite regex, control messages, ordinary logs; both byte orders): conservation monitor with allowed-change mask {payload_text; extended header may appear when missing; timestamp only if Rewrite is active}. 1/3: AnonymizePlugin on lifecycle scenarios with ECU ids incl. ids that look like pseudonyms (E001..E003 in random first-seen order) and 1-900 APIDs/CTIDs: mapping functions and injectivity for ecu / (ecu,apid) / (ecu,apid,ctid), times untouched, and lifecycle detection on the re-exported anonymised trace vs the original (same partition of messages, same start/end/nr_msgs up to the ECU renaming). Non-trivial = >=1 plugin changed a text resp. >=2 ECUs and >=2 lifecycles; distinct = (plugin order, changed-text bucket) resp. (ecus, apids, lifecycles, mode, position of E001).",
+        "rule": "1/6 of the cases: a FileTransfer plugin with a random apid/ctid restriction and keepFLDA on/off processes data packages, announcements, end markers and near misses (other last argument, 4 arguments, utf8 tags, non verbose, other level, no extended header) of the configured and of other applications: exactly the data packages of the configured application are dropped when keepFLDA is off, everything else is forwarded unchanged and in order. 1/2 of the cases: a random non-empty subset of {NonVerbose, SomeIp, CAN, Muniic, Rewrite, NonVerbose with the harness' own FIBEX (harness/fibex/nv_rich.xml: one frame per signal type S_UINT8..S_RAW, a 17-value frame, text-only and empty frames, ECU EcuR)} in random order, created through factory::get_plugin from the repository's FIBEX/JSON/cfg files, processes 20-220 messages of mixed traffic (non-verbose ids of the FIBEX files and near misses with/without extended header and payloads of exactly / one less / one more than the frame's byte length, SOME/IP-like and CAN-like network traces incl. truncated frames, 13-argument Muniic messages, complete well-formed segmented SOME/IP transfers (NWST, all NWCH in order, NWEN), SYS/JOUR texts matching and not matching the rewrite regex, control messages, ordinary logs; both byte orders): conservation monitor with allowed-change mask {payload_text; extended header may appear when missing; timestamp only if Rewrite is active}. 1/3: AnonymizePlugin on lifecycle scenarios (1/10 of the log messages without any payload) with ECU ids incl. ids that look like pseudonyms (E001..E003 in random first-seen order) and 1-900 APIDs/CTIDs: mapping functions and injectivity for ecu / (ecu,apid) / (ecu,apid,ctid), times untouched, and lifecycle detection on the re-exported anonymised trace vs the original (same partition of messages, same start/end/nr_msgs up to the ECU renaming). Non-trivial = >=1 plugin changed a text resp. >=2 ECUs and >=2 lifecycles; distinct = (plugin order, changed-text bucket) resp. (ecus, apids, lifecycles, mode, position of E001).",
         "floors": {"quick": {"evaluations": 100000, "distinct_nontrivial": 1000, "messages_with_changed_text": 1000000, "text_changed_traffic_class_0": 50000, "text_changed_traffic_class_1": 50000, "text_changed_traffic_class_2": 50000, "text_changed_traffic_class_3": 10000, "text_changed_traffic_class_4": 50000, "anon_lifecycle_tables_compared": 20000, "file_transfer_drop_cases": 10000}, "thorough": {"evaluations": 1000000, "distinct_nontrivial": 3000}},
         "assumptions": ["plugin configuration = the files shipped in /repo/tests (fibex1.xml, non_verbose*.xml, rewrite.cfg, muniic/min.json) plus the well-formed harness FIBEX nv_rich.xml", "pseudonym capacity (3 digits) is respected by the generator", "FileTransfer/Export plugins may drop messages by design and are covered by C17 / C12"],
     },
